@@ -58,6 +58,10 @@ type mkAct struct {
 	Rfc   string          `json:"rfcroot"`
 	Vlen  int             `json:"vlen"`
 	Vlens []int           `json:"vlens"`
+	Lst   string          `json:"lst"`
+	Vals  []int           `json:"vals"`   // value ids of the list the path is generated for
+	Ovals []int           `json:"ovals"`  // value ids of the other list of the same size and first leaf
+	Ovlen []int           `json:"ovlens"`
 }
 
 type mkStep struct {
@@ -558,8 +562,17 @@ func mkReplayB(out *vhOut, pi int, steps []mkStep, counts map[string]int) int {
 	for si, st := range steps {
 		a := st.Act
 		counts[a.Name]++
-		for j, l := range a.Vlens {
-			mkVlens[j] = l
+		if a.Vals != nil {
+			for j, l := range a.Vlens {
+				mkVlens[a.Vals[j]] = l
+			}
+			for j, l := range a.Ovlen {
+				mkVlens[a.Ovals[j]] = l
+			}
+		} else {
+			for j, l := range a.Vlens {
+				mkVlens[j] = l
+			}
 		}
 		switch a.Name {
 		case "Grow":
@@ -579,7 +592,17 @@ func mkReplayB(out *vhOut, pi int, steps []mkStep, counts map[string]int) int {
 				bad(si, a.Name, "MerkleHashes-root", len(lv), fmt.Sprintf("0-%d", k))
 			}
 		case "GenPath":
-			hs := list()
+			// history: first a path of the OTHER list (same size, same first leaf), in a slice that is then
+			// overwritten in place with the hashes of the list asked about
+			hs := make([]common.Uint256, len(a.Vals))
+			for i, v := range a.Ovals {
+				hs[i] = HashLeaf(mkValueB(v, nil, mkVlens[v]))
+			}
+			oi := (a.Idx + 1) % len(a.Ovals)
+			mkCatch(func() { MerkleLeafPath(mkValueB(a.Ovals[oi], nil, mkVlens[a.Ovals[oi]]), hs) })
+			for i, v := range a.Vals {
+				hs[i] = HashLeaf(mkValueB(v, nil, mkVlens[v]))
+			}
 			val := mkValueB(a.Val, nil, a.Vlen)
 			var path []byte
 			var perr error
@@ -598,6 +621,10 @@ func mkReplayB(out *vhOut, pi int, steps []mkStep, counts map[string]int) int {
 			}
 			if common.Uint256(ev.eval(a.Root)) != common.Uint256(ev.eval(a.Rfc)) {
 				bad(si, a.Name, "roots", a.Root, a.Rfc)
+			}
+			// the honest path proves the value against the root of its own list
+			if got, err := MerkleProve(path, common.Uint256(ev.eval(a.Root))); err != nil || !bytes.Equal(got, val) {
+				bad(si, a.Name, "generated-path-does-not-prove", fmt.Sprint(err), a)
 			}
 		case "Prove":
 			var np [][32]byte
